@@ -67,6 +67,18 @@ CLAIMED.update({
                 design_ref="5 C12"),
 })
 
+CLAIMED.update({
+    "C14": dict(category="exploration",
+                technique="Go race detector on natively parallel runs of the uninstrumented tree (external observer) + payload checksums; natively parallel stamped histories validated by TLC against MapLin/CacheLin; access-mode table extracted from the tree compared with the table the specification assumes",
+                text="exploration with a model-checked oracle for histories: -race builds of the unmodified working tree run seeded parallel programs (2..64 goroutines, all four containers, janitor on a 1 ms interval, settings swapped concurrently, Range/Clear/resizes) - any race report with a frame in repository code or any corrupted payload is a violation; small native programs are stamped with an atomic counter and their histories decided by TLC. TLC cannot decide races of a compiled binary; the specification's part is the linearizability oracle and the access-mode table (drift only).",
+                design_ref="5 C14, 7.7",
+                note="Trusted: the Go race detector (reports only races on executions that occur), the harness's checksum discipline, TLC for the history oracle. Coverage is sampling of schedules by the OS scheduler under several GOMAXPROCS values and seeds."),
+    "C15": dict(technique="TLA+ CacheLife (janitor as ticker-driven pass, interval normalisation, exactly-once eviction per pass) with trace validation of real runs under a virtual ticker; lifecycle observation (goroutines, tickers, finalisers) after GC",
+                text="model_checking: for every constructor variant x interval {negative, 0, positive, default} x callback, a scripted life (stores, clock advances landing before/on/after ticks, accesses, manual DeleteExpired) is executed on the real code with the janitor's ticker driven by the virtual clock; Count and the callback ledger after every step are validated by TLC against CacheLife. Dropped caches must lose their janitor goroutine and ticker and let their contents be finalised (bounded GC wait, INCONCLUSIVE if the baseline finaliser does not run).",
+                design_ref="5 C15, 2.6",
+                note="Trusted: TLC, the virtual ticker shim, bounded real-time waits for the native janitor goroutine (5 s) and for GC/finalisers (20 s)."),
+})
+
 NOT_YET = "check not built yet (work in progress; see DESIGN.md section 9)"
 
 
